@@ -18,6 +18,7 @@ package storex
 import (
 	"fmt"
 	"hash/fnv"
+	"math"
 	"reflect"
 	"sort"
 	"strings"
@@ -171,6 +172,14 @@ func (g *GraphGen) Type(d int) reflect.Type {
 	}
 }
 
+// FloatLeaves: what a float leaf of a generated value is drawn from. Half ordinary numbers; half the values on which
+// "equal" (==) and "the same bits" part ways: NaN is never == itself (quiet, signalling-range and negative payloads: three
+// different bit patterns, all != each other AND != themselves), -0 == +0 with different bits, the infinities and the smallest
+// denormal for the edges of the format. Anything that decides identity or "unchanged" by == instead of by bits shows on these.
+var FloatLeaves = []float64{0, 1, 2.5, -3, 0, 1,
+	math.NaN(), math.Float64frombits(0x7ff8000000000123), math.Float64frombits(0xfff8000000000001), math.Float64frombits(0x7ff4000000000000),
+	math.Copysign(0, -1), math.Inf(1), math.Inf(-1), math.SmallestNonzeroFloat64}
+
 // Reset forgets the sharing pool (call between graphs).
 func (g *GraphGen) Reset() { g.pool = nil }
 
@@ -185,7 +194,9 @@ func (g *GraphGen) Value(t reflect.Type, d int) reflect.Value {
 	case reflect.Uint, reflect.Uint8, reflect.Uint16, reflect.Uint32, reflect.Uint64:
 		v.SetUint(uint64(g.R.Intn(7)))
 	case reflect.Float32, reflect.Float64:
-		v.SetFloat(hx.Pick(g.R, []float64{0, 1, 2.5, -3}))
+		v.SetFloat(hx.Pick(g.R, FloatLeaves))
+	case reflect.Complex64, reflect.Complex128:
+		v.SetComplex(complex(hx.Pick(g.R, FloatLeaves), hx.Pick(g.R, FloatLeaves)))
 	case reflect.Bool:
 		v.SetBool(g.R.Bool())
 	case reflect.Interface:
